@@ -38,8 +38,8 @@ const strDecls = `func sh@G@(s string) uint64 {
 	}
 	return h
 }
-func bh@G@(b []byte) uint64 {
-	h := uint64(len(b))
+func bh@G@(h uint64, b []byte) uint64 {
+	h += uint64(len(b))
 	for i := 0; i < len(b); i++ {
 		h = h*257 + uint64(b[i]) + 1
 	}
@@ -64,18 +64,18 @@ func FamDataString(thorough bool) Family {
 		g.Items = append(g.Items, Item{Key: "string|len-and-bytes|" + s.class, Desc: s.lit,
 			Stmts: fmt.Sprintf("\t\ts := %s\n\t\tprintln(len(s), sh@G@(s))\n\t\tfor i := 0; i < len(s); i++ {\n\t\t\tprintln(int64(s[i]))\n\t\t}", s.lit)})
 		if utf8.ValidString(s.val) {
-			g.Items = append(g.Items, Item{Key: "string|println|" + s.class, Desc: s.lit, Stmts: fmt.Sprintf("\t\ts := %s\n\t\tprintln(s)\n\t\tprint(s, \"|\", s, \"\\n\")", s.lit)})
+			g.Items = append(g.Items, Item{Key: "string|println|" + s.class, Desc: s.lit, Stmts: fmt.Sprintf("\t\ts := %s\n\t\tprintln(s)\n\t\tprintln(s, s, 1)\n\t\tprint(s)\n\t\tprint(\"\\n\")", s.lit)})
 		}
 		g.Items = append(g.Items, Item{Key: "string|range|" + s.class, Desc: s.lit,
 			Stmts: fmt.Sprintf("\t\ts := %s\n\t\tn := 0\n\t\tfor i, c := range s {\n\t\t\tprintln(i, int64(c))\n\t\t\tn++\n\t\t}\n\t\tprintln(n)", s.lit)})
 		g.Items = append(g.Items, Item{Key: "string|range-concat|" + s.class, Desc: "range over x + " + s.lit + " + y",
 			Stmts: fmt.Sprintf("\t\ts := \"x\" + %s + \"y\"\n\t\tfor i, c := range s {\n\t\t\tprintln(i, int64(c))\n\t\t}", s.lit)})
 		g.Items = append(g.Items, Item{Key: "string|to-bytes|" + s.class, Desc: "[]byte(" + s.lit + ")",
-			Stmts: fmt.Sprintf("\t\ts := %s\n\t\tb := []byte(s)\n\t\tprintln(len(b), bh@G@(b), string(b) == s, sh@G@(string(b)))\n\t\tif len(b) > 0 {\n\t\t\tt := string(b)\n\t\t\tb[0] ^= 1\n\t\t\tprintln(sh@G@(s), sh@G@(t), sh@G@(string(b)), t == s)\n\t\t}", s.lit)})
+			Stmts: fmt.Sprintf("\t\ts := %s\n\t\tb := []byte(s)\n\t\tprintln(len(b), bh@G@(0, b), string(b) == s, sh@G@(string(b)))\n\t\tif len(b) > 0 {\n\t\t\tt := string(b)\n\t\t\tb[0] ^= 1\n\t\t\tprintln(sh@G@(s), sh@G@(t), sh@G@(string(b)), t == s)\n\t\t}", s.lit)})
 		g.Items = append(g.Items, Item{Key: "string|to-runes|" + s.class, Desc: "[]rune(" + s.lit + ")",
 			Stmts: fmt.Sprintf("\t\ts := %s\n\t\tr := []rune(s)\n\t\tprintln(len(r))\n\t\tfor _, c := range r {\n\t\t\tprintln(int64(c))\n\t\t}\n\t\tt := string(r)\n\t\tprintln(len(t), sh@G@(t), t == s)", s.lit)})
 		g.Items = append(g.Items, Item{Key: "string|append-to-bytes|" + s.class, Desc: "append([]byte, s...) and copy(b, s)",
-			Stmts: fmt.Sprintf("\t\ts := %s\n\t\tb := append([]byte(\"x\"), s...)\n\t\tprintln(len(b), bh@G@(b))\n\t\tc := make([]byte, 2)\n\t\tprintln(copy(c, s), bh@G@(c))", s.lit)})
+			Stmts: fmt.Sprintf("\t\ts := %s\n\t\tb := append([]byte(\"x\"), s...)\n\t\tprintln(len(b), bh@G@(0, b))\n\t\tc := make([]byte, 2)\n\t\tprintln(copy(c, s), bh@G@(0, c))", s.lit)})
 		g.Items = append(g.Items, Item{Key: "string|build-in-loop|" + s.class, Desc: "s += x three times",
 			Stmts: fmt.Sprintf("\t\tx := %s\n\t\ts := \"\"\n\t\tfor i := 0; i < 3; i++ {\n\t\t\ts += x\n\t\t\ts += \"-\"\n\t\t}\n\t\tprintln(len(s), sh@G@(s))", s.lit)})
 		g.Items = append(g.Items, Item{Key: "string|switch|" + s.class, Desc: "switch on " + s.lit,
